@@ -450,10 +450,202 @@ theorem Rel.pending {S : Bytes} {w : World} {a : Stream} (r : Rel S w a) :
 
 /-! ### the HTTP (PatchedIceCastClient) stacking -/
 
-/-- the world as the consumer's reference sees it: a fetched-but-unstored chunk still
-    counts as "in the source" -/
+theorem Src.readAll_spec (fuel : Nat) (s : Src) (n : Nat) (hf : n ≤ fuel) :
+    (Src.readAll fuel s n).2 ++ (Src.readAll fuel s n).1.rest = s.rest ∧
+    (Src.readAll fuel s n).2.length = min n s.rest.length := by
+  induction fuel generalizing s n with
+  | zero =>
+    have : n = 0 := by omega
+    subst this
+    simp [Src.readAll]
+  | succ fuel ih =>
+    unfold Src.readAll
+    by_cases hn : n = 0
+    · subst hn; simp
+    · have hs := Src.read_spec s n
+      rw [if_neg hn]
+      by_cases he : (s.read n).2 = []
+      · rw [if_pos he]
+        have hrest : s.rest = [] := by
+          apply Classical.byContradiction
+          intro hne
+          exact Src.read_nonempty s n (by omega) hne he
+        have h1 := hs.1
+        rw [he, List.nil_append, hrest] at h1
+        simp [h1, hrest]
+      · rw [if_neg he]
+        have hpos : 0 < (s.read n).2.length := List.length_pos_iff.mpr he
+        have hi := ih (s.read n).1 (n - (s.read n).2.length) (by omega)
+        have hlen : s.rest.length = (s.read n).2.length + (s.read n).1.rest.length := by
+          rw [← hs.1, List.length_append]
+        refine ⟨?_, ?_⟩
+        · simp only []
+          rw [List.append_assoc, hi.1, hs.1]
+        · simp only [List.length_append]
+          rw [hi.2, hlen]
+          have := hs.2
+          omega
+
+theorem icyAudio_nil (M : Nat) (m : IcyMode) : icyAudio M m [] = [] := by
+  cases m with
+  | audio u => cases u <;> simp [icyAudio]
+  | skip k => cases k <;> simp [icyAudio]
+
+theorem icyAudio_audio_append (M : Nat) (c r : Bytes) (u : Nat) (h : c.length ≤ u) :
+    icyAudio M (.audio u) (c ++ r) = c ++ icyAudio M (.audio (u - c.length)) r := by
+  induction c generalizing u with
+  | nil => simp
+  | cons x c ih =>
+    cases u with
+    | zero => simp at h
+    | succ u =>
+      have h' : c.length ≤ u := by simpa using h
+      have hsub : u + 1 - (x :: c).length = u - c.length := by simp
+      simp only [List.cons_append, icyAudio, ih u h', hsub]
+
+theorem icyAudio_skip_exact (M : Nat) (c r : Bytes) (k : Nat) (h : c.length = k + 1) :
+    icyAudio M (.skip k) (c ++ r) = icyAudio M (.audio M) r := by
+  induction c generalizing k with
+  | nil => simp at h
+  | cons x c ih =>
+    cases k with
+    | zero =>
+      have : c = [] := List.length_eq_zero_iff.mp (by simpa using h)
+      subst this
+      simp [icyAudio]
+    | succ k =>
+      have h' : c.length = k + 1 := by simpa using h
+      simp only [List.cons_append, icyAudio]
+      exact ih k h'
+
+theorem icyAudio_skip_short (M : Nat) (c : Bytes) (k : Nat) (h : c.length ≤ k + 1) :
+    icyAudio M (.skip k) c = [] := by
+  induction c generalizing k with
+  | nil => exact icyAudio_nil M _
+  | cons x c ih =>
+    cases k with
+    | zero =>
+      have : c = [] := by simpa using h
+      subst this
+      simp [icyAudio, icyAudio_nil]
+    | succ k =>
+      have h' : c.length ≤ k + 1 := by simpa using h
+      simp only [icyAudio]
+      exact ih k h'
+
+/-- what a turn's reading part does to the audio still to come: the fetched chunk is
+    exactly its beginning; it is at most a block; `ended` only when no audio is left. -/
+structure FetchOk (iw iw' : IWorld) (blk : Nat) : Prop where
+  view : iw.view = iw'.held ++ iw'.view
+  len : iw'.held.length ≤ blk
+  fin : iw'.ended = true → iw'.view = []
+  buf : iw'.w.b = iw.w.b
+  stop : iw'.stopped = iw.stopped
+
+theorem IWorld.fetchPlain_ok (iw : IWorld) (blk : Nat) (hblk : 1 ≤ blk) (hM : iw.metaint = 0) :
+    FetchOk iw (iw.fetchPlain blk) blk := by
+  have hs := Src.read_spec iw.w.src blk
+  refine ⟨?_, ?_, ?_, rfl, rfl⟩
+  · simp only [IWorld.view, IWorld.fetchPlain, IWorld.held, hM, if_true, Option.getD_some]
+    exact hs.1.symm
+  · simp only [IWorld.fetchPlain, IWorld.held, Option.getD_some]; exact hs.2
+  · intro he
+    have he' : (iw.w.src.read blk).2 = [] := by simpa [IWorld.fetchPlain, List.isEmpty_iff] using he
+    have hrest : iw.w.src.rest = [] := by
+      apply Classical.byContradiction
+      intro hne
+      exact Src.read_nonempty iw.w.src blk hblk hne he'
+    have h1 := hs.1
+    rw [he', List.nil_append, hrest] at h1
+    simp only [IWorld.view, IWorld.fetchPlain, hM, if_true]
+    exact h1
+
+theorem IWorld.fetchIcy_ok (iw : IWorld) (blk : Nat) (hM : iw.metaint ≠ 0) :
+    FetchOk iw (iw.fetchIcy blk) blk := by
+  have hr := Src.readAll_spec (min iw.untilMeta blk) iw.w.src (min iw.untilMeta blk) (Nat.le_refl _)
+  generalize hrd : Src.readAll (min iw.untilMeta blk) iw.w.src (min iw.untilMeta blk) = r at hr
+  obtain ⟨hr1, hr2⟩ := hr
+  have hlenu : r.2.length ≤ iw.untilMeta := by rw [hr2]; omega
+  have hlenb : r.2.length ≤ blk := by rw [hr2]; omega
+  -- the audio still to come starts with the chunk
+  have hview : icyAudio iw.metaint (.audio iw.untilMeta) iw.w.src.rest
+      = r.2 ++ icyAudio iw.metaint (.audio (iw.untilMeta - r.2.length)) r.1.rest := by
+    rw [← hr1]
+    exact icyAudio_audio_append iw.metaint r.2 r.1.rest iw.untilMeta hlenu
+  unfold IWorld.fetchIcy
+  simp only [hrd]
+  by_cases hshort : r.2.length < min iw.untilMeta blk
+  · -- the response ended inside the audio run
+    rw [if_pos hshort]
+    have hrest : r.1.rest = [] := by
+      have : r.2.length = iw.w.src.rest.length := by omega
+      have h2 : iw.w.src.rest.length = r.2.length + r.1.rest.length := by rw [← hr1, List.length_append]
+      exact List.length_eq_zero_iff.mp (by omega)
+    refine ⟨?_, hlenb, fun _ => ?_, rfl, rfl⟩
+    · simp only [IWorld.view, IWorld.held, Option.getD_some, if_neg hM, hrest, icyAudio_nil, List.append_nil]
+      rw [hview, hrest, icyAudio_nil, List.append_nil]
+    · simp only [IWorld.view, if_neg hM, hrest, icyAudio_nil]
+  · rw [if_neg hshort]
+    by_cases hu : iw.untilMeta - r.2.length = 0
+    · rw [if_pos hu]
+      have hl := Src.readAll_spec 1 r.1 1 (Nat.le_refl _)
+      generalize hld : Src.readAll 1 r.1 1 = l at hl
+      obtain ⟨hl1, hl2⟩ := hl
+      cases hl2' : l.2 with
+      | nil =>
+        -- no length byte: the response ended right after the run
+        have hrest : r.1.rest = [] := by
+          rw [hl2'] at hl2
+          have : min 1 r.1.rest.length = 0 := by simpa using hl2.symm
+          exact List.length_eq_zero_iff.mp (by omega)
+        have hlrest : l.1.rest = [] := by
+          rw [hl2', List.nil_append, hrest] at hl1; exact hl1
+        simp only []
+        refine ⟨?_, hlenb, fun _ => ?_, rfl, rfl⟩
+        · simp only [IWorld.view, IWorld.held, Option.getD_some, if_neg hM, hlrest, icyAudio_nil, List.append_nil]
+          rw [hview, hrest, icyAudio_nil, List.append_nil]
+        · simp only [IWorld.view, if_neg hM, hlrest, icyAudio_nil]
+      | cons x tl =>
+        have htl : tl = [] := by
+          rw [hl2'] at hl2
+          have : tl.length + 1 = min 1 r.1.rest.length := by simpa using hl2
+          exact List.length_eq_zero_iff.mp (by omega)
+        subst htl
+        have hm := Src.readAll_spec (16 * x.toNat) l.1 (16 * x.toNat) (Nat.le_refl _)
+        generalize hmd : Src.readAll (16 * x.toNat) l.1 (16 * x.toNat) = m at hm
+        obtain ⟨hm1, hm2⟩ := hm
+        simp only [hmd]
+        refine ⟨?_, hlenb, fun h => by simp at h, rfl, rfl⟩
+        simp only [IWorld.view, IWorld.held, Option.getD_some, if_neg hM]
+        rw [hview, hu]
+        congr 1
+        -- r.1.rest = x :: (metadata ++ rest after it)
+        rw [hl2'] at hl1
+        rw [← hl1, ← hm1]
+        simp only [List.singleton_append, icyAudio]
+        cases hk : 16 * x.toNat with
+        | zero =>
+          have : m.2 = [] := List.length_eq_zero_iff.mp (by rw [hm2, hk]; simp)
+          simp [this]
+        | succ k =>
+          simp only []
+          by_cases hfull : m.2.length = k + 1
+          · exact icyAudio_skip_exact iw.metaint m.2 m.1.rest k hfull
+          · -- metadata cut short by the end of the response
+            have hlen2 : l.1.rest.length = m.2.length + m.1.rest.length := by
+              rw [← hm1, List.length_append]
+            have hmr : m.1.rest = [] := List.length_eq_zero_iff.mp (by rw [hk] at hm2; omega)
+            rw [hmr, List.append_nil, icyAudio_nil]
+            exact icyAudio_skip_short iw.metaint m.2 k (by rw [hk] at hm2; omega)
+    · rw [if_neg hu]
+      refine ⟨?_, hlenb, fun h => by simp at h, rfl, rfl⟩
+      simp only [IWorld.view, IWorld.held, Option.getD_some, if_neg hM]
+      exact hview
+
+/-- the world as the consumer's reference sees it: a fetched-but-unstored chunk and the
+    audio still to be downloaded count as "in the source" -/
 def IWorld.virt (iw : IWorld) : World :=
-  { b := iw.w.b, src := { rest := iw.held ++ iw.w.src.rest, ks := iw.w.src.ks } }
+  { b := iw.w.b, src := { rest := iw.held ++ iw.view, ks := iw.w.src.ks } }
 
 structure IRel (S : Bytes) (iw : IWorld) (a : Stream) : Prop where
   rel : Rel S iw.virt a
@@ -485,11 +677,18 @@ theorem Stream.setProtected_keeps (a : Stream) (b : Bool) :
   · exact ⟨rfl, rfl, rfl, rfl⟩
   · split <;> exact ⟨rfl, rfl, rfl, rfl⟩
 
-theorem IRel.fetch {S : Bytes} {iw : IWorld} {a : Stream} (r : IRel S iw a) (blk : Nat) :
-    IRel S (iw.fetch blk).1 a := by
+/-- the invariant of the download side: the end is decided (`ended`), and flagged
+    (`stopped`), only when no audio is left to download -/
+structure IWorld.StopOk (iw : IWorld) : Prop where
+  fin : iw.ended = true → iw.view = []
+  stop : iw.stopped = true → iw.held = [] ∧ iw.view = []
+
+theorem IWorld.fetch_cases (iw : IWorld) (blk : Nat) (hblk : 1 ≤ blk) :
+    ((iw.fetch blk).1 = iw) ∨
+    (iw.chunk = none ∧ iw.w.b.fits blk = true ∧ FetchOk iw (iw.fetch blk).1 blk) := by
   unfold IWorld.fetch
   split
-  · exact r
+  · exact Or.inl rfl
   · rename_i hno
     have hnone : iw.chunk = none := by
       cases hc : iw.chunk with
@@ -497,19 +696,27 @@ theorem IRel.fetch {S : Bytes} {iw : IWorld} {a : Stream} (r : IRel S iw a) (blk
       | some d => simp [hc] at hno
     split
     · rename_i hf
-      have hs := Src.read_spec iw.w.src blk
-      have hb : iw.w.b = a.toBuf := r.rel.buf
-      rw [hb, Stream.toBuf_fits] at hf
-      have hf' : a.acc.length - a.low + blk ≤ a.size := by simpa using hf
-      refine ⟨⟨r.rel.buf, r.rel.inv, ?_⟩, ?_⟩
-      · have := r.rel.src
-        simp only [IWorld.virt, IWorld.held, hnone, Option.getD_none, List.nil_append] at this
-        simp only [IWorld.virt, IWorld.held, Option.getD_some, hs.1]
-        exact this
-      · simp only [IWorld.held, Option.getD_some]
-        have := hs.2
-        omega
-    · exact r
+      refine Or.inr ⟨hnone, hf, ?_⟩
+      by_cases hM : iw.metaint = 0
+      · simp only [if_pos hM]; exact IWorld.fetchPlain_ok iw blk hblk hM
+      · simp only [if_neg hM]; exact IWorld.fetchIcy_ok iw blk hM
+    · exact Or.inl rfl
+
+theorem IRel.fetch {S : Bytes} {iw : IWorld} {a : Stream} (r : IRel S iw a) (blk : Nat) (hblk : 1 ≤ blk) :
+    IRel S (iw.fetch blk).1 a := by
+  rcases IWorld.fetch_cases iw blk hblk with h | ⟨hnone, hf, ok⟩
+  · rw [h]; exact r
+  · have hb : iw.w.b = a.toBuf := r.rel.buf
+    rw [hb, Stream.toBuf_fits] at hf
+    have hf' : a.acc.length - a.low + blk ≤ a.size := by simpa using hf
+    refine ⟨⟨?_, r.rel.inv, ?_⟩, ?_⟩
+    · show (iw.fetch blk).1.w.b = a.toBuf
+      rw [ok.buf]; exact hb
+    · have := r.rel.src
+      simp only [IWorld.virt, IWorld.held, hnone, Option.getD_none, List.nil_append] at this
+      show a.acc ++ ((iw.fetch blk).1.held ++ (iw.fetch blk).1.view) = S
+      rw [← ok.view]; exact this
+    · have := ok.len; omega
 
 theorem IRel.store {S : Bytes} {iw : IWorld} {a : Stream} (r : IRel S iw a) :
     ∃ a', IRel S iw.store.1 a' ∧ a'.cur = a.cur := by
@@ -529,22 +736,24 @@ theorem IRel.store {S : Bytes} {iw : IWorld} {a : Stream} (r : IRel S iw a) :
     · simp [IWorld.held]
   · exact ⟨a, r, rfl⟩
 
-theorem IRel.feed {S : Bytes} {iw : IWorld} {a : Stream} (r : IRel S iw a) (blk : Nat) :
+theorem IRel.feed {S : Bytes} {iw : IWorld} {a : Stream} (r : IRel S iw a) (blk : Nat) (hblk : 1 ≤ blk) :
     ∃ a', IRel S (iw.feed blk).1 a' ∧ a'.cur = a.cur := by
   unfold IWorld.feed
   split
-  · exact (r.fetch blk).store
+  · exact (r.fetch blk hblk).store
   · exact ⟨a, r, rfl⟩
 
-theorem IRel.step {S : Bytes} {iw : IWorld} {a : Stream} (r : IRel S iw a) (op : IOp) :
+theorem IRel.step {S : Bytes} {iw : IWorld} {a : Stream} (r : IRel S iw a) (op : IOp)
+    (hop : op.blockOk = true) :
     ∃ a', IRel S (iw.step op).1 a' ∧ IRef.next S a.cur (op, (iw.step op).2) = some a'.cur := by
   cases op with
-  | fetch blk => exact ⟨a, r.fetch blk, by simp [IWorld.step, IRef.next]⟩
+  | fetch blk =>
+    exact ⟨a, r.fetch blk (by simpa [IOp.blockOk] using hop), by simp [IWorld.step, IRef.next]⟩
   | store =>
     obtain ⟨a', r', hc⟩ := r.store
     exact ⟨a', r', by simp [IWorld.step, IRef.next, hc]⟩
   | feed blk =>
-    obtain ⟨a', r', hc⟩ := r.feed blk
+    obtain ⟨a', r', hc⟩ := r.feed blk (by simpa [IOp.blockOk] using hop)
     exact ⟨a', r', by simp [IWorld.step, IRef.next, hc]⟩
   | read n =>
     obtain ⟨h1, h2, h3, h4⟩ := r.rel.get n
@@ -583,46 +792,40 @@ theorem IRel.step {S : Bytes} {iw : IWorld} {a : Stream} (r : IRel S iw a) (op :
     show iw.held.length ≤ (a.setProtected b).1.size - ((a.setProtected b).1.acc.length - (a.setProtected b).1.low)
     rw [hk.1, hk.2.1, hk.2.2.1]; exact this
 
-theorem IRel.run {S : Bytes} {iw : IWorld} {a : Stream} (r : IRel S iw a) (ops : List IOp) :
+theorem IRel.run {S : Bytes} {iw : IWorld} {a : Stream} (r : IRel S iw a) (ops : List IOp)
+    (hops : ∀ op ∈ ops, op.blockOk = true) :
     IRef.ok S a.cur (ops.zip (iw.run ops).2) ∧ ∃ a', IRel S (iw.run ops).1 a' := by
   induction ops generalizing iw a with
   | nil => exact ⟨trivial, a, r⟩
   | cons op ops ih =>
-    obtain ⟨a', r', hn⟩ := r.step op
+    obtain ⟨a', r', hn⟩ := r.step op (hops op (List.mem_cons_self))
     simp only [IWorld.run, List.zip_cons_cons, IRef.ok, hn]
-    exact ih r'
+    exact ih r' (fun o ho => hops o (List.mem_cons_of_mem _ ho))
 
-theorem IRel.init (size H : Nat) (prot : Bool) (hH : 1 ≤ H) (S : Bytes) (ks : List Nat) :
-    IRel S (IWorld.init size H prot S ks) (Stream.init size H prot) :=
-  ⟨⟨rfl, Stream.init_inv size H prot hH, rfl⟩, Nat.zero_le _⟩
-
-/-- end of stream is only ever flagged when nothing is left to fetch or to store -/
-def IWorld.StopOk (iw : IWorld) : Prop := iw.stopped = true → iw.held = [] ∧ iw.w.src.rest = []
+theorem IRel.init (size H : Nat) (prot : Bool) (hH : 1 ≤ H) (M : Nat) (W : Bytes) (ks : List Nat) :
+    IRel (audioOf M W) (IWorld.init size H prot M W ks) (Stream.init size H prot) := by
+  refine ⟨⟨rfl, Stream.init_inv size H prot hH, ?_⟩, Nat.zero_le _⟩
+  rfl
 
 theorem IWorld.fetch_stopOk (iw : IWorld) (h : iw.StopOk) (blk : Nat) (hblk : 1 ≤ blk) :
     (iw.fetch blk).1.StopOk := by
-  unfold IWorld.fetch
-  split
-  · exact h
-  · split
-    · intro hst
-      have hst' : (iw.w.src.read blk).2 = [] := by simpa [List.isEmpty_iff] using hst
-      have hs := Src.read_spec iw.w.src blk
-      have hrest : iw.w.src.rest = [] := by
-        apply Classical.byContradiction
-        intro hne
-        exact Src.read_nonempty iw.w.src blk hblk hne hst'
-      refine ⟨by simp [IWorld.held, hst'], ?_⟩
-      have := hs.1
-      rw [hst', List.nil_append, hrest] at this
-      exact this
-    · exact h
+  rcases IWorld.fetch_cases iw blk hblk with he | ⟨hnone, _, ok⟩
+  · rw [he]; exact h
+  · refine ⟨ok.fin, fun hst => ?_⟩
+    rw [ok.stop] at hst
+    have hs := h.stop hst
+    have hv := ok.view
+    rw [hs.2] at hv
+    have : (iw.fetch blk).1.held = [] ∧ (iw.fetch blk).1.view = [] := by
+      have := congrArg List.length hv
+      simp only [List.length_nil, List.length_append] at this
+      exact ⟨List.length_eq_zero_iff.mp (by omega), List.length_eq_zero_iff.mp (by omega)⟩
+    exact this
 
 theorem IWorld.store_stopOk (iw : IWorld) (h : iw.StopOk) : iw.store.1.StopOk := by
   unfold IWorld.store
   split
-  · intro hst
-    exact ⟨by simp [IWorld.held], (h hst).2⟩
+  · refine ⟨fun he => h.fin he, fun hst => ⟨by simp [IWorld.held], h.fin hst⟩⟩
   · exact h
 
 theorem IWorld.step_stopOk (iw : IWorld) (h : iw.StopOk) (op : IOp) (hop : op.blockOk = true) :
@@ -635,9 +838,9 @@ theorem IWorld.step_stopOk (iw : IWorld) (h : iw.StopOk) (op : IOp) (hop : op.bl
     split
     · exact IWorld.store_stopOk _ (IWorld.fetch_stopOk iw h blk (by simpa [IOp.blockOk] using hop))
     · exact h
-  | read n => exact h
-  | seek p => exact h
-  | protect b => exact h
+  | read n => exact ⟨h.fin, h.stop⟩
+  | seek p => exact ⟨h.fin, h.stop⟩
+  | protect b => exact ⟨h.fin, h.stop⟩
 
 theorem IWorld.run_stopOk (iw : IWorld) (h : iw.StopOk) (ops : List IOp)
     (hops : ∀ op ∈ ops, op.blockOk = true) : (iw.run ops).1.StopOk := by
